@@ -93,6 +93,8 @@ static const char* const REPLACEMENTS[] = {"nan", "inf", "-inf", "1e400", "1e-40
                                            "2147483647", "-2147483648", "\xef\xbc\x91", "1e99999999999999999999",
                                            "111111111111111111111111111111111111111111111111111111111111111111111111111111111111111111111111111111111111111111111111111111111111111111111111111111111111111111111111111111111111111111111111111111111111111111111111111111111111111111111111111111111111111111111111111111111111111111111111111111111111111111111111111111111111111111111111111111111111111111111111.5"};
 constexpr int N_REPL = sizeof(REPLACEMENTS) / sizeof(REPLACEMENTS[0]);
+static const double SCALES[] = {-1, 0.001, 0.1, 0.5, 0.9, 1.1, 2, 10, 1000, 1e6};
+constexpr int N_SCALE = sizeof(SCALES) / sizeof(SCALES[0]);
 constexpr int N_REPL_ENUM = N_REPL; ///< all kinds are enumerated exhaustively
 
 inline void note_fault(Scenario& s, const char* k)
@@ -192,6 +194,22 @@ inline void apply_op(Scenario& s, const Corpus& corpus, const std::vector<std::s
       const int k = (int)(((num(3) % N_REPL) + N_REPL) % N_REPL);
       d.replace(tk.first, tk.second - tk.first, REPLACEMENTS[k]);
       damaged("replace_token");
+   } else if (op == "scale") {
+      // scale LINE FIELD K : the token, if it is a number, multiplied by a moderate factor -- the document stays well-formed
+      // and plausible, but the physics point moves (tachyons, non-convergence, fallback solvers, MW > MZ, ...)
+      auto ls = line_starts(d);
+      std::vector<std::pair<size_t, std::vector<std::pair<size_t, size_t>>>> cand;
+      for (size_t i = 0; i < ls.size(); ++i) { auto tk = tokens_of(d, ls[i], line_end(d, ls[i])); if (!tk.empty()) cand.push_back({i, tk}); }
+      if (cand.empty()) return;
+      auto& c = cand[(size_t)(((num(1) % (long long)cand.size()) + (long long)cand.size()) % (long long)cand.size())];
+      auto& tk = c.second[(size_t)(((num(2) % (long long)c.second.size()) + (long long)c.second.size()) % (long long)c.second.size())];
+      const int k = (int)(((num(3) % N_SCALE) + N_SCALE) % N_SCALE);
+      const std::string old = d.substr(tk.first, tk.second - tk.first);
+      char* endp = nullptr; const double v = std::strtod(old.c_str(), &endp);
+      if (old.empty() || *endp != 0 || !std::isfinite(v)) return; // not a number: nothing happens
+      char buf[64]; std::snprintf(buf, sizeof buf, "%.17g", v * SCALES[k]);
+      d.replace(tk.first, tk.second - tk.first, buf);
+      s.base_intact = false; s.cfg_known_format = -1; note_fault(s, "scale_value"); // (the document stays clean: only a number changed)
    } else if (op == "del") {
       // lost bytes
       if (!d.empty()) { const size_t p = (size_t)(((num(1) % (long long)d.size()) + (long long)d.size()) % (long long)d.size()); const size_t n = std::min<size_t>((size_t)(num(2) & 15) + 1, d.size() - p); d.erase(p, n); damaged("delete_bytes"); }
@@ -368,7 +386,8 @@ inline std::vector<std::string> gen_plan(const Corpus& corpus, uint64_t seed, st
       }
    };
    auto struct_op = [&]() -> std::string {
-      switch (r.below(12)) {
+      switch (r.below(15)) {
+      case 12: case 13: case 14: return "scale " + std::to_string(r.below(400)) + " " + std::to_string(1 + r.below(3)) + " " + std::to_string(r.below(N_SCALE));
       case 10: return "idx " + std::to_string(r.below(400)) + " " + std::to_string(r.below(2)) + " " + std::to_string(r.below(15));
       case 11: return "blowline " + std::to_string(r.below(400)) + " " + std::to_string(r.chance(0.5) ? r.below(40) : r.below(6000));
       case 9: return "tokglue " + std::to_string(r.below(400)) + " " + std::to_string(r.below(4)) + " " + std::to_string(r.below(N_REPL));
